@@ -185,7 +185,10 @@ def errors_stream(ctx, n):
                 others.append(w)
         planes = [g.Plane(g.Point(U), g.Point(V), g.Point(w)) for w in others]
         bad = rng.choice([2, 3])
-        shifted = g.Plane(g.Point(U + np.array([1.0, 0.0, 0.0, 0.0]) + np.array([0.0, 1.0, 1.0, 0.0]) * (k % 2)), g.Point(V + np.array([0.0, 0.0, 1.0, 0.0])), g.Point(others[bad]))
+        sh = call_impl(lambda: g.Plane(g.Point(U + np.array([1.0, 0.0, 0.0, 0.0]) + np.array([0.0, 1.0, 1.0, 0.0]) * (k % 2)), g.Point(V + np.array([0.0, 0.0, 1.0, 0.0])), g.Point(others[bad])))
+        if sh[0] != "ok":
+            continue                   # the three points happened to be collinear: no plane
+        shifted = sh[1]
         if bool(shifted.contains(g.Line(g.Point(U), g.Point(V)))):
             continue
         planes[bad] = shifted
@@ -436,7 +439,34 @@ def mixed_pencils_stream(ctx, n):
             ctx.disagree("C11:crossratio:mixed-pencils", desc, exp, r[1:3] if r[0] != "ok" else r[1].tolist(), replay=[desc])
 
 
+def clustered_stream(ctx, n):
+    """four collinear points whose parameters are clustered (spacing 1e-6): the cross ratio is that of the parameters (2.25 for
+    0, 1, 3, -2), for single points and as a position of a collection; cr(a,b,c,d) = 1 - cr(a,c,b,d)"""
+    import geometer as g
+    rng = ctx.rng
+    for k in range(n):
+        a0 = np.array([float(rng.randint(-3, 3)), float(rng.randint(-3, 3))])
+        d0 = np.array([float(rng.randint(1, 3)), float(rng.randint(-2, 2))])
+        eps = rng.choice([1e-6, 2.0 ** -20])
+        xs = [0.0, 1.0, 3.0, -2.0]
+        exp = ((xs[0] - xs[2]) * (xs[1] - xs[3])) / ((xs[0] - xs[3]) * (xs[1] - xs[2]))
+        P = [g.Point(*(a0 + eps * x * d0)) for x in xs]
+        wide = [g.Point(*(a0 + x * d0)) for x in xs]
+        cols = [g.PointCollection([p, w]) for p, w in zip(P, wide)]
+        desc = f"clustered collinear points: base {a0.tolist()} direction {d0.tolist()} spacing {eps}"
+        ctx.case(desc)
+        ctx.count("cr:clustered")
+        r = call_impl(lambda: (float(np.real(g.crossratio(*P))), np.real(np.asarray(g.crossratio(*cols), dtype=complex)),
+                               np.real(np.asarray(g.crossratio(cols[0], cols[2], cols[1], cols[3]), dtype=complex))))
+        # the brackets of clustered points are differences of nearly equal numbers: the quotient is accurate to about 1e-3 only (conditioning,
+        # not a defect); a value that ignores the spacing altogether (1 instead of 2.25) is what this stream is after
+        ok = r[0] == "ok" and abs(r[1][0] - exp) <= 2e-2 * abs(exp) and np.allclose(r[1][1], [exp, exp], rtol=2e-2) and np.allclose(r[1][1] + r[1][2], [1.0, 1.0], rtol=2e-2, atol=2e-2)
+        if not ok:
+            ctx.disagree("C11:crossratio:clustered", desc, exp, r[1:3] if r[0] != "ok" else (r[1][0], r[1][1].tolist(), r[1][2].tolist()), replay=[desc])
+
+
 def correspondence(ctx):
+    clustered_stream(ctx, ctx.budget(20, 200))
     mixed_pencils_stream(ctx, ctx.budget(30, 300))
     harmonic_at_infinity_stream(ctx, ctx.budget(40, 400))
     zoom_invariance(ctx, ctx.budget(30, 300))
